@@ -118,7 +118,9 @@ mod verif_replay_matcher {
     fn verif_replay_repeat() {
         let env = ApproximateTokEnv::single_byte_env();
         let mut cases = 0;
-        for (m_, n_) in [(0usize, 1usize), (1, 3), (0, 11), (0, 12), (0, 13), (0, 14), (0, 15), (0, 16), (0, 17), (3, 16), (3, 17), (2, 30), (0, 29), (5, 26), (9, 9), (13, 13)] {
+        for (m_, n_) in [(0usize, 1usize), (1, 3), (0, 11), (0, 12), (0, 13), (0, 14), (0, 15), (0, 16), (0, 17), (3, 16), (3, 17), (2, 30), (0, 29), (5, 26), (9, 9), (13, 13),
+            // counts that are factored more than once by the K = 4 encoding (n >= 36, (n / 4) % 4 != 0) and around them
+            (36, 36), (37, 37), (40, 40), (36, 38), (0, 40), (52, 52), (35, 35), (48, 49), (20, 70)] {
             let lark = format!("start: a{{{m_},{n_}}} \"!\"\na: \"x\"\n");
             for k in 0..n_ + 3 {
                 let mut mt = mk(&env, &lark);
@@ -139,7 +141,7 @@ mod verif_replay_matcher {
                 cases += 1;
             }
         }
-        for m_ in [0usize, 1, 7, 12, 13] {
+        for m_ in [0usize, 1, 7, 12, 13, 36, 40, 53] {
             let lark = format!("start: a{{{m_},}} \"!\"\na: \"x\"\n");
             for k in 0..m_ + 4 {
                 let mut mt = mk(&env, &lark);
